@@ -3,7 +3,7 @@ from __future__ import annotations
 
 import ast
 
-from ..core import Run, norm
+from ..core import Run, norm, dotted
 from ..dim import World, Val, describe
 
 EXPLANATION = (
@@ -108,12 +108,54 @@ def _h5(run: Run, w: World, mods) -> None:
     run.floor("H5", ndec, 400, "calculation functions typed")
 
 
+def _h6_declared_dimension_is_stored(run: Run, w: World) -> None:
+    """the dimension engine reads `Symbol(display, dimension)`, `Function(display, arguments, dimension)`,
+    `IndexedSymbol(display, index, dimension)` (positionally or as dimension=): that reading is what the constructors do"""
+    from ..flow import Fn, node_calls
+    SYMS = "symplyphysics.core.symbols.symbols"
+    for cls, pos in (("Symbol", 1), ("Function", 2), ("IndexedSymbol", 2)):
+        f = Fn(w, SYMS, f"{cls}.__init__")
+        a = f.fn.args
+        positional = [p.arg for p in a.posonlyargs + a.args][1:]
+        names = positional + [p.arg for p in a.kwonlyargs]
+        run.ob("H6", f"{cls}:signature")
+        if not (len(positional) > pos and positional[pos] == "dimension" and names.count("dimension") == 1):
+            run.violate("H6", f"{SYMS}:{cls}.__init__:signature", f.mod, f.fn,
+                        f"{cls}(...) no longer takes its dimension as parameter `dimension` at position {pos + 1} (positional parameters: {positional}; keyword-only: "
+                        f"{[p.arg for p in a.kwonlyargs]}): a dimension passed positionally and one passed as dimension= are not the same argument any more")
+            continue
+        stores = [(n, c) for n in f.cfg.stmt_nodes() for c in node_calls(n) if isinstance(c.func, ast.Attribute) and c.func.attr == "__init__" and len(c.args) >= 2]
+        run.ob("H6", f"{cls}:stored")
+        good = False
+        for n, c in stores:
+            darg = c.args[2] if dotted(c.func.value) == "DimensionSymbol" and len(c.args) >= 3 else c.args[1]
+            sl = f.slice(n, darg)
+            if sl.params == {"dimension"} and not sl.calls and not any(isinstance(x, (ast.BoolOp, ast.IfExp, ast.BinOp)) for e in sl.exprs for x in ast.walk(e)):
+                good = True
+        if not good:
+            run.violate("H6", f"{SYMS}:{cls}.__init__:stored", f.mod, f.fn,
+                        f"{cls}.__init__ does not hand its `dimension` argument unchanged to DimensionSymbol.__init__ (defaults merged with `or`, a conversion, or another "
+                        f"parameter are in the way): the declared dimension of catalogue symbols is not the dimension they carry")
+    base = Fn(w, SYMS, "DimensionSymbol.__init__")
+    run.ob("H6", "DimensionSymbol:stores")
+    st = [n for n in base.cfg.stmt_nodes() if isinstance(n.ast, ast.Assign) and dotted(n.ast.targets[0]) == "self._dimension"]
+    if not (len(st) == 1 and dotted(st[0].ast.value) == "dimension"):
+        run.violate("H6", f"{SYMS}:DimensionSymbol.__init__", base.mod, base.fn, "DimensionSymbol.__init__ does not store its `dimension` argument as self._dimension unchanged")
+    prop = Fn(w, SYMS, "DimensionSymbol.dimension")
+    run.ob("H6", "DimensionSymbol:property")
+    if not all(dotted(r.ast.value) == "self._dimension" for r in prop.cfg.returns()):
+        run.violate("H6", f"{SYMS}:DimensionSymbol.dimension", prop.mod, prop.fn, "DimensionSymbol.dimension does not return self._dimension")
+
+
 def check(run: Run) -> None:
     run.rule("H1", "two sides of every published relation have the same dimension")
     run.rule("H2", "operands of +/-/Min/Max/Piecewise/integration limits have the same dimension")
     run.rule("H3", "exponents are dimensionless")
     run.rule("H4", "arguments of exp, trigonometric and hyperbolic functions are dimensionless")
+    run.rule("H6", "the dimension written in a declaration is the dimension the object has: Symbol/Function/IndexedSymbol store the `dimension` argument "
+             "(same parameter positionally and by keyword) unchanged")
     w = World(run.src)
+    _h6_declared_dimension_is_stored(run, w)
     mods = run.src.catalogue()
     run.require(len(mods) >= 100, f"only {len(mods)} catalogue modules found")
     total = decided = 0
